@@ -243,7 +243,8 @@ SlotStep(term) ==      \* body of encode_spo / encode_quad for one slot
   /\ pc = "slot"
   /\ LET i == Len(cur) + 1 IN
      /\ term \in Pool(i)
-     /\ (CheckFits => Fits(Append(cur, term)))
+     \* CheckFits: the precondition of C01 is exactly what the code enforces: the NON-elided terms of the row must fit
+     \* (e.rej = "" below; an elided term needs no lookup entry).  Fits() is the coarser, elision-blind version.
      /\ IF rep[i] = term
         THEN UNCHANGED <<tabs, rep, rows>>                     \* elided: nothing is touched
         ELSE LET e == EncTerm(tabs, term) IN
@@ -304,7 +305,6 @@ GraphBegin(g) ==       \* GraphStream.graph(): encode_graph + graph_start row, e
   /\ pc = "idle" /\ PType = PT_GRAPHS /\ ~gopen
   /\ (HistLen = 0 \/ Len(hist) < HistLen)
   /\ g \in PoolG
-  /\ (CheckFits => Fits(<<g>>))
   /\ LET e  == EncTerm([tabs EXCEPT !.C = NoClaims], g)                    \* start_row
          rw == e.rows \o <<[r |-> "gs", g |-> e.w]>>
          r2 == RdRun(rd, rw, 1)
@@ -369,4 +369,11 @@ PrintHist ==
     => PrintT("BEHAVIOUR " \o ToJson([bad |-> bad, hist |-> hist]))
 
 View == <<tabs, rep, pc, cur, rows, gcur, buf, rd, bad>>
+
+(* state-graph comparison at statement granularity (DESIGN.md 4.3): the projection of an idle state, printed once per state, *)
+(* and the term pools, so that the harness can walk the same graph on real Stream objects                                    *)
+TabKey(t) == [ord |-> t.ord, ix |-> [i \in 1..Len(t.ord) |-> t.idx[t.ord[i]]], la |-> t.la, lu |-> t.lu]
+IdleKey == [N |-> TabKey(tabs.N), P |-> TabKey(tabs.P), D |-> TabKey(tabs.D), rep |-> rep, gcur |-> gcur, buf |-> buf]
+PrintIdle == (pc = "idle" /\ bad = "") => PrintT("IDLE " \o ToJson(IdleKey))
+PrintPools == pc = "new" => PrintT("POOLS " \o ToJson([s |-> PoolS, p |-> PoolP, o |-> PoolO, g |-> PoolG]))
 =============================================================================
